@@ -8,6 +8,8 @@
 use serde::Deserialize;
 use serde_saphyr::Spanned;
 use std::collections::BTreeMap;
+use std::rc::Rc;
+use std::sync::Arc;
 use vcore::ty::{FieldTy, Fields, StructTy, TVal, Ty, VariantTy};
 
 #[derive(Deserialize, Debug)]
@@ -52,6 +54,39 @@ pub struct S5 {
     f3: S3,
 }
 
+/// Wrapped positions: Rc / Arc / Box / Spanned around containers and enums, the crate's own
+/// `RcAnchor` / `ArcAnchor`, and a `#[serde(flatten)]`ed struct (the README says flattening parses).
+#[derive(Deserialize, Debug)]
+pub struct S6 {
+    f0: Rc<S0>,
+    f1: Arc<Vec<E0>>,
+    f2: Spanned<E0>,
+    f3: Spanned<(i32, String)>,
+    f4: Box<E0>,
+    f5: Option<Rc<(i64, Box<Option<E0>>)>>,
+}
+
+#[derive(Deserialize, Debug)]
+pub struct S7 {
+    f0: serde_saphyr::RcAnchor<S2>,
+    f1: Vec<serde_saphyr::ArcAnchor<E0>>,
+    f2: Spanned<Vec<Spanned<i32>>>,
+}
+
+#[derive(Deserialize, Debug)]
+pub struct Inner {
+    f1: String,
+    f2: Option<i32>,
+    f3: Vec<i32>,
+}
+
+#[derive(Deserialize, Debug)]
+pub struct Flat {
+    f0: i32,
+    #[serde(flatten)]
+    rest: Inner,
+}
+
 pub trait ToTVal {
     fn tv(&self) -> TVal;
 }
@@ -87,6 +122,41 @@ impl<T: ToTVal> ToTVal for Option<T> {
             None => TVal::None,
             Some(x) => TVal::some(x.tv()),
         }
+    }
+}
+impl<T: ToTVal> ToTVal for Rc<T> {
+    fn tv(&self) -> TVal {
+        (**self).tv()
+    }
+}
+impl<T: ToTVal> ToTVal for Arc<T> {
+    fn tv(&self) -> TVal {
+        (**self).tv()
+    }
+}
+impl<T: ToTVal> ToTVal for serde_saphyr::RcAnchor<T> {
+    fn tv(&self) -> TVal {
+        (*self.0).tv()
+    }
+}
+impl<T: ToTVal> ToTVal for serde_saphyr::ArcAnchor<T> {
+    fn tv(&self) -> TVal {
+        (*self.0).tv()
+    }
+}
+impl ToTVal for S6 {
+    fn tv(&self) -> TVal {
+        TVal::Struct(vec![self.f0.tv(), self.f1.tv(), self.f2.tv(), self.f3.tv(), self.f4.tv(), self.f5.tv()])
+    }
+}
+impl ToTVal for S7 {
+    fn tv(&self) -> TVal {
+        TVal::Struct(vec![self.f0.tv(), self.f1.tv(), self.f2.tv()])
+    }
+}
+impl ToTVal for Flat {
+    fn tv(&self) -> TVal {
+        TVal::Struct(vec![self.f0.tv(), self.rest.f1.tv(), self.rest.f2.tv(), self.rest.f3.tv()])
     }
 }
 impl<T: ToTVal> ToTVal for Box<T> {
@@ -212,25 +282,53 @@ pub fn ty_s5() -> Ty {
     )
 }
 
+pub fn ty_s6() -> Ty {
+    Ty::strukt(
+        6,
+        vec![
+            ty_s0(),
+            Ty::seq(ty_e0()),
+            ty_e0(),
+            Ty::Tuple(vec![Ty::I32, Ty::Str]),
+            ty_e0(),
+            Ty::opt(Ty::Tuple(vec![Ty::I64, Ty::opt(ty_e0())])),
+        ],
+        false,
+    )
+}
+pub fn ty_s7() -> Ty {
+    Ty::strukt(7, vec![ty_s2(), Ty::seq(ty_e0()), Ty::seq(Ty::I32)], false)
+}
+/// `Flat` seen from YAML: one flat mapping f0..f3
+pub fn ty_flat() -> Ty {
+    Ty::strukt(0, vec![Ty::I32, Ty::Str, Ty::opt(Ty::I32), Ty::seq(Ty::I32)], false)
+}
+
 pub struct Derived {
     pub name: &'static str,
     pub ty: Ty,
-    pub run: fn(&str) -> Result<TVal, serde_saphyr::Error>,
+    pub run: fn(&str, serde_saphyr::Options) -> Result<TVal, serde_saphyr::Error>,
+    /// the target goes through serde's buffered `Content` (flatten): scalars are typed by
+    /// `deserialize_any` first, so only structure is compared strictly (see main.rs)
+    pub buffered: bool,
 }
 
-fn run_as<T: for<'de> Deserialize<'de> + ToTVal>(doc: &str) -> Result<TVal, serde_saphyr::Error> {
-    serde_saphyr::from_str::<T>(doc).map(|v| v.tv())
+fn run_as<T: for<'de> Deserialize<'de> + ToTVal>(doc: &str, o: serde_saphyr::Options) -> Result<TVal, serde_saphyr::Error> {
+    serde_saphyr::from_str_with_options::<T>(doc, o).map(|v| v.tv())
 }
 
 pub fn family() -> Vec<Derived> {
     vec![
-        Derived { name: "E0", ty: ty_e0(), run: run_as::<E0> },
-        Derived { name: "S0", ty: ty_s0(), run: run_as::<S0> },
-        Derived { name: "S1", ty: ty_s1(), run: run_as::<S1> },
-        Derived { name: "S3", ty: ty_s3(), run: run_as::<S3> },
-        Derived { name: "S5", ty: ty_s5(), run: run_as::<S5> },
-        Derived { name: "VecE0", ty: Ty::seq(ty_e0()), run: run_as::<Vec<E0>> },
-        Derived { name: "PairE0S2", ty: Ty::Tuple(vec![ty_e0(), ty_s2()]), run: run_as::<(E0, S2)> },
-        Derived { name: "MapStrS0", ty: Ty::map(Ty::Str, ty_s0()), run: run_as::<BTreeMap<String, S0>> },
+        Derived { name: "S6", ty: ty_s6(), run: run_as::<S6>, buffered: false },
+        Derived { name: "S7", ty: ty_s7(), run: run_as::<S7>, buffered: false },
+        Derived { name: "Flat", ty: ty_flat(), run: run_as::<Flat>, buffered: true },
+        Derived { name: "E0", ty: ty_e0(), run: run_as::<E0>, buffered: false },
+        Derived { name: "S0", ty: ty_s0(), run: run_as::<S0>, buffered: false },
+        Derived { name: "S1", ty: ty_s1(), run: run_as::<S1>, buffered: false },
+        Derived { name: "S3", ty: ty_s3(), run: run_as::<S3>, buffered: false },
+        Derived { name: "S5", ty: ty_s5(), run: run_as::<S5>, buffered: false },
+        Derived { name: "VecE0", ty: Ty::seq(ty_e0()), run: run_as::<Vec<E0>>, buffered: false },
+        Derived { name: "PairE0S2", ty: Ty::Tuple(vec![ty_e0(), ty_s2()]), run: run_as::<(E0, S2)>, buffered: false },
+        Derived { name: "MapStrS0", ty: Ty::map(Ty::Str, ty_s0()), run: run_as::<BTreeMap<String, S0>>, buffered: false },
     ]
 }
